@@ -162,10 +162,18 @@ func TrackRaces(on bool)               {}
 func Trace(msg string)                 { fmt.Println("VH-TRACE " + msg) }
 func SyncPoint()                       {}
 
+// Tick makes every time.Ticker created by the code under test fire once (natively: wait a moment, the
+// harness starts tickers with a millisecond period).
+func Tick() { time.Sleep(5 * time.Millisecond) }
+
 // SearchOnly declares a bug-hunting harness: exploration stops at the first verdict or after maxPaths
 // paths, and the run is reported as not exhaustive (used where a known finding makes an exhaustive
 // pass meaningless).
 func SearchOnly(maxPaths int) {}
+
+// SearchBudget bounds the number of explored paths of a harness without stopping at the first
+// verdict (race harnesses: every schedule explored stands for its happens-before class).
+func SearchBudget(maxPaths int) {}
 
 // Quiesce waits until the goroutines started by the code under test have run (natively: a pause).
 func Quiesce() { time.Sleep(300 * time.Millisecond) }
